@@ -227,8 +227,12 @@ pub struct HeapDir {
 
 const EMPTY_AGG: Agg = Agg { n: 0, sum: 0, hash: 0, pw: 1, g: 0 };
 
-fn agg_apply(x: Agg, a: u64, b: u64) -> Agg {
-    Agg { n: x.n, sum: addmod(mulmod(a, x.sum), mulmod(b, x.n as u64 % P)), hash: addmod(mulmod(a, x.hash), mulmod(b, x.g)), pw: x.pw, g: x.g }
+/// the aggregate of a sequence after x -> a*x + b on every element and + d on its first element
+fn agg_apply(x: Agg, a: u64, b: u64, d: u64) -> Agg {
+    if x.n == 0 {
+        return x;
+    }
+    Agg { n: x.n, sum: addmod(addmod(mulmod(a, x.sum), mulmod(b, x.n as u64 % P)), d), hash: addmod(addmod(mulmod(a, x.hash), mulmod(b, x.g)), d), pw: x.pw, g: x.g }
 }
 
 fn agg_combine(l: Agg, x: u64, r: Agg) -> Agg {
@@ -249,7 +253,7 @@ fn agg_combine(l: Agg, x: u64, r: Agg) -> Agg {
 /// maps of the node and its descendants applied, those of its ancestors not), which is what
 /// the node must have stored.  Never pushes: observation must not perturb the lazy state.
 #[allow(clippy::too_many_arguments)]
-fn walk(node: &TreapNode<It>, depth: usize, anc: (u64, u64), seq: &mut Vec<(u32, u64)>, max_depth: &mut usize, heap: &mut HeapDir, shape: &mut Digest, pending_nodes: &mut u32) -> Result<Agg, String> {
+fn walk(node: &TreapNode<It>, depth: usize, anc: (u64, u64, u64), seq: &mut Vec<(u32, u64)>, max_depth: &mut usize, heap: &mut HeapDir, shape: &mut Digest, pending_nodes: &mut u32) -> Result<Agg, String> {
     *max_depth = (*max_depth).max(depth);
     let it = &node.item;
     if !it.pending_is_identity() {
@@ -257,7 +261,11 @@ fn walk(node: &TreapNode<It>, depth: usize, anc: (u64, u64), seq: &mut Vec<(u32,
         shape.byte(b'p');
     }
     // for the children: first this node's pending map, then everything above
-    let below = (mulmod(anc.0, it.pa), addmod(mulmod(anc.0, it.pb), anc.1));
+    // anc = (A, B, D): A*x + B on every element of this subtree, then + D on its first element.
+    // For the left child: first this node's pending map, then everything above, and the first
+    // element of this subtree is the first element of the left subtree; the right child gets no D.
+    let below = (mulmod(anc.0, it.pa), addmod(mulmod(anc.0, it.pb), anc.1), addmod(mulmod(anc.0, it.pd), anc.2));
+    let below_right = (below.0, below.1, 0);
     shape.byte(b'(');
     let mut l = EMPTY_AGG;
     if let Some(c) = &node.left {
@@ -265,14 +273,17 @@ fn walk(node: &TreapNode<It>, depth: usize, anc: (u64, u64), seq: &mut Vec<(u32,
         l = walk(c, depth + 1, below, seq, max_depth, heap, shape, pending_nodes)?;
     }
     shape.byte(b'.');
-    seq.push((it.uid, addmod(mulmod(anc.0, it.x), anc.1)));
+    // the node's own pending first-bump is already in it.x when it has no left child; the
+    // ancestors' D reaches it only then, too
+    let own = addmod(mulmod(anc.0, it.x), anc.1);
+    seq.push((it.uid, if node.left.is_none() { addmod(own, anc.2) } else { own }));
     let mut r = EMPTY_AGG;
     if let Some(c) = &node.right {
         note_edge(node.priority, c.priority, heap);
-        r = walk(c, depth + 1, below, seq, max_depth, heap, shape, pending_nodes)?;
+        r = walk(c, depth + 1, below_right, seq, max_depth, heap, shape, pending_nodes)?;
     }
     shape.byte(b')');
-    let want = agg_combine(agg_apply(l, it.pa, it.pb), it.x, agg_apply(r, it.pa, it.pb));
+    let want = agg_combine(agg_apply(l, it.pa, it.pb, it.pd), it.x, agg_apply(r, it.pa, it.pb, 0));
     if it.agg() != want {
         return Err(format!(
             "aggregate stored at the subtree root with uid {} is {:?} but the fold of exactly its {} elements is {:?}",
@@ -310,7 +321,7 @@ pub fn observe(t: &Treap<It>) -> Result<WalkOut, String> {
     let mut pending = 0;
     let mut seq = Vec::with_capacity(t.root.as_ref().map(|r| r.item.n.min(1024)).unwrap_or(0));
     if let Some(r) = &t.root {
-        walk(r, 1, (1, 0), &mut seq, &mut max_depth, &mut heap, &mut shape, &mut pending)?;
+        walk(r, 1, (1, 0, 0), &mut seq, &mut max_depth, &mut heap, &mut shape, &mut pending)?;
     }
     Ok(WalkOut { seq, height: max_depth, heap, state_digest: shape.finish(), pending_nodes: pending })
 }
@@ -401,6 +412,7 @@ pub const PROBES: &[&str] = &[
     "rotation_split_swap",
     "remove_at_checked",
     "removed_item_reinserted",
+    "asymmetric_modification_attached",
     "item_with_pending_modification_inserted",
     "node_level_collect_into",
     "node_level_push_on_live_node",
@@ -710,13 +722,20 @@ fn apply(pool: &mut Pool, op: &Op, st: &mut ExecStats) -> Result<(), (&'static s
             let (a, b) = (*a % P, *b % P);
             let (t12, t3) = take(&mut pool.treaps[s]).split_at(hi + 1);
             let (t1, mut t2) = t12.split_at(lo);
+            // the asymmetric part (add d to the first element of the range) is derived from (a, b)
+            // and left out while the sequence is sorted (threshold predicates need it to stay so)
+            let d = if b % 3 == 0 || is_sorted(&pool.model[s]) { 0 } else { (b.wrapping_mul(7) + a + 1) % 1000 };
             match t2.root_mut() {
-                Some(root) => root.modify(a, b),
+                Some(root) => root.modify_first(a, b, d),
                 None => return Err(("result", format!("split_at produced an empty middle part for the non-empty range [{}, {}]", lo, hi))),
             }
             pool.treaps[s] = Treap::merge(t1, Treap::merge(t2, t3));
             for e in &mut pool.model[s][lo..=hi] {
                 e.1 = addmod(mulmod(a, e.1), b);
+            }
+            pool.model[s][lo].1 = addmod(pool.model[s][lo].1, d);
+            if d != 0 {
+                hit(st, "asymmetric_modification_attached");
             }
             if lo == 0 && hi + 1 == len {
                 hit(st, "range_modify_on_whole_treap");
